@@ -389,7 +389,7 @@ def run_fallback(unit):
 
 # ------------------------------------------------------------------ reference graphs
 
-NODE_TYPES = dict(quick='LTD', thorough='LTDGCE')
+NODE_TYPES = {1: 'LTDGCE', 2: 'LTDGCE', ('quick', 3): 'LTDG', ('thorough', 3): 'LTDGC'}
 
 
 def graph_specs(n, tier):
@@ -399,7 +399,7 @@ def graph_specs(n, tier):
     exist in Python (a cycle through tuples only) are dropped."""
     targets = list(range(n)) + ['A']
     kids = [()] + [(a,) for a in targets] + list(itertools.product(targets, repeat=2))
-    types = NODE_TYPES[tier] if n == 3 else NODE_TYPES['thorough']
+    types = NODE_TYPES.get(n) or NODE_TYPES[tier, n]
     for spec in itertools.product(itertools.product(types, kids), repeat=n):
         order = [0]
         for i in order:  # (the list grows while we walk it: breadth first search)
